@@ -71,8 +71,18 @@ def finder(ctx, n):
     rng = ctx.rng
     tol = 1e-8
     for i in range(n):
-        kind = i % 4
-        if kind == 3:
+        kind = i % 5
+        if kind == 4:
+            # the lattice was copied and the COPY then changed: the original must still describe its own cell
+            import copy as _copy
+            cell = latlive.rand_cell(rng)
+            rot = latlive.rand_rot(rng)
+            L = Lattice(*cell, baserot=rot)
+            L2 = rng.choice([Lattice, _copy.copy, _copy.deepcopy])(L)
+            L2.setLatPar(*latlive.rand_cell(rng), baserot=latlive.rand_rot(rng))
+            L2.setLatBase(latlive.rand_base(rng))
+            case = {"cell": cell, "rot": rot.tolist(), "then": "a copy of the lattice is updated"}
+        elif kind == 3:
             # a lattice defined by base vectors and then updated through one cell parameter
             B = latlive.rand_base(rng)
             L = Lattice(base=B)
@@ -105,7 +115,7 @@ def finder(ctx, n):
         angs = [euclid_angle(B[1], B[2]), euclid_angle(B[0], B[2]), euclid_angle(B[0], B[1])]
         if not numpy.allclose(angs, [al, be, ga], atol=1e-6):
             probs.append("base vector angles %s vs %s" % (angs, (al, be, ga)))
-        if kind in (0, 1) and not numpy.allclose((a, b, c, al, be, ga), cell, rtol=1e-12):
+        if kind in (0, 1, 4) and not numpy.allclose((a, b, c, al, be, ga), cell, rtol=1e-12):
             probs.append("abcABG() %s differs from the constructor arguments %s" % ((a, b, c, al, be, ga), cell))
         if not numpy.allclose(L.metrics, B @ B.T, rtol=tol, atol=1e-9):
             probs.append("metrics is not the Gram matrix of base")
